@@ -100,7 +100,8 @@ def check(case, ctx):
     w2 = step("write2", lambda: bibtexparser.write_string(l2, bibtex_format=mkformat(fmt)))
     if w2 is None:
         return out
-    p1, p2 = sp.project_lib(l1), sp.project_lib(l2)
+    # exact comparison: white space inside an enclosing is content ("the same ... values"), seed C05-l
+    p1, p2 = sp.project_lib(l1, exact=True), sp.project_lib(l2, exact=True)
     ctx.mon("roundtrip_content")
     # mechanism tag: an entry type whose lower-cased form is no longer a word (U+0130 'İ' -> 'i' + combining dot)
     odd_type = any(sp.block_kind(b) == "entry" and not re.fullmatch(r"\w+", b.entry_type or "x") for b in l1.blocks)
